@@ -44,6 +44,9 @@ static sqfs_object_t *xattr_reader_copy(const sqfs_object_t *obj)
 		return NULL;
 
 	memcpy(copy, xr, sizeof(*xr));
+	copy->kvrd = NULL;
+	copy->idrd = NULL;
+	copy->id_block_starts = NULL;
 
 	if (xr->kvrd != NULL) {
 		copy->kvrd = sqfs_copy(xr->kvrd);
